@@ -23,11 +23,15 @@ RULE = ('states = interleavings of {load, load(force), enforce, edit (toggle '
         'objects unchanged; (c) the other enforcers\' printed policy '
         'unchanged by the step.  non-trivial = history touching >=2 '
         'enforcers or containing >=2 loads of one enforcer.')
+RULE += (
+         ' One shared default (svc:ref) refers by rule: to a policy the'
+         ' files redefine; the comparison enforcer registers brand-new'
+         ' default objects.')
 ASSUMPTIONS = ['same canonicalisation argument as C10',
                'fresh comparison enforcers are the implementation itself']
 
-ROLES = ['dp', 'dn', 'dold', 'cn', 'cn2', 'cold', 'f0', 'fold', 'fd']
-NAMES = ['svc:plain', 'svc:new', 'svc:old', 'svc:chg']
+ROLES = ['dp', 'dn', 'dold', 'cn', 'cn2', 'cold', 'f0', 'fold', 'fd', 'rr']
+NAMES = ['svc:plain', 'svc:new', 'svc:old', 'svc:chg', 'svc:ref']
 FILES = {
     'x0': {'svc:plain': 'role:f0'},
     'x1': {'svc:old': 'role:fold', 'svc:chg': 'role:fd'},
@@ -57,6 +61,8 @@ def bound(tier):
 def shared_defaults(P):
     return [
         P.RuleDefault('svc:plain', 'role:dp'),
+        # a default that REFERS to a rule the files redefine
+        P.RuleDefault('svc:ref', 'rule:svc:plain or role:rr'),
         P.RuleDefault('svc:new', 'role:dn',
                       deprecated_rule=P.DeprecatedRule(
                           'svc:old', 'role:dold', deprecated_reason='r',
@@ -161,7 +167,9 @@ class System:
         if loaded:
             fresh = self.make(d, end)
             if self.registered[i]:
-                fresh.register_defaults(self.shared)
+                # brand-new default objects: nothing any enforcer did to the
+                # shared ones can reach the comparison
+                fresh.register_defaults(shared_defaults(self.P))
             fresh.load_rules()
             res['long'] = (c10.printed(enf.rules), self.vector(enf))
             res['fresh'] = (c10.printed(fresh.rules), self.vector(fresh))
